@@ -13,6 +13,8 @@ mod c06;
 mod c07;
 mod c19;
 mod c19_consts;
+mod mapper;
+mod physmem;
 
 use gen::Rng;
 use out::Out;
@@ -62,7 +64,9 @@ fn main() {
         }
     }
     // Panics are expected outcomes; keep stderr quiet.
-    std::panic::set_hook(Box::new(|_| {}));
+    if std::env::var("VERIF_DEBUG").is_err() {
+        std::panic::set_hook(Box::new(|_| {}));
+    }
     let mut out = Out::new();
     let ovf = out::overflow_checks_on();
     out.header(&format!("#cfg ovf={}", ovf as u8));
@@ -75,6 +79,11 @@ fn main() {
         "C06" => c06::run(&mut out, &mut rng, tier),
         "C07" => c07::run(&mut out, &mut rng, tier),
         "C19" => c19::run(&mut out, &mut rng, tier),
+        "C01" => mapper::run_histories(&mut out, &mut rng, tier, 1 | 16),
+        "C02" => mapper::run_histories(&mut out, &mut rng, tier, 2),
+        "C09" => mapper::run_histories(&mut out, &mut rng, tier, 4),
+        "C10" => mapper::run_histories(&mut out, &mut rng, tier, 8),
+        "MAPPER" => mapper::run_histories(&mut out, &mut rng, tier, 31),
         _ => {
             eprintln!("unknown property {}", prop);
             std::process::exit(2);
